@@ -450,6 +450,20 @@ def inline_program(bodies_by_tag):
             if j["kind"] in ("Fn", "AssocFn") and j.get("coroutine") is None and bid not in known \
                     and len(j["blocks"]) <= MAX_BLOCKS and j["id"] == j["owner"]:
                 cand[bid] = j
+        # an `async fn` helper is only spliced when all its callers are one function: its future is then re-owned
+        # by that function (below); with several callers it keeps its call boundary
+        if cand:
+            callers = {}
+            for bid, j in bodies.items():
+                for blk in j["blocks"]:
+                    t = blk["t"]
+                    if t["k"] == "call":
+                        for x in (_callee_id(t) or []):
+                            if x in cand and cand[x].get("async"):
+                                callers.setdefault(x, set()).add(j["owner"])
+            for x, owners in callers.items():
+                if len(owners) != 1:
+                    del cand[x]
         done = {}
 
         def process(bid, j, stack):
@@ -478,9 +492,14 @@ def inline_program(bodies_by_tag):
                 i += 1
         for bid, j in list(bodies.items()):
             process(bid, j, [])
+        # In the server crates (event-based rules over the handlers of the state machine) every constructed
+        # Result / Option / bool constant that is branched on later is threaded (`let res = match .. { .. => Err(e) };
+        # match res { .. }`).  In the engine crate only values that originate in spliced code are threaded: its rules
+        # follow definitions of locals, which block copies multiply.
+        _SEED_ALL[0] = THREAD_ALL and any(tag.startswith(x) for x in ("polytune_server_core", "polytune_http_server"))
         for bid, j in bodies.items():
-            j.pop("_spliced", False)
-            if THREAD_ALL or j.get("_x"):
+            spliced = j.pop("_spliced", False)
+            if _SEED_ALL[0] or spliced:
                 n = thread_body(j)
                 if n:
                     report.append({"crate": tag, "host": bid, "callee": "thread", "blocks": n, "threaded": n})
@@ -568,14 +587,21 @@ def _escaped(j):
     return esc
 
 
+_SEED_ALL = [False]
+
+
 def _is_seed(blk, s):
-    # flags of logging macros (`enabled` of tracing's debug!/info!) are not program logic
-    return "|m:" not in s.get("sp", "") or bool(blk.get("inl"))
+    r = s["r"]
+    if bool(blk.get("inl")) or bool(r.get("model")) or bool(r.get("thr")):
+        return True
+    # every constructed Result / Option / bool constant (server crates only, see inline_program); flags of logging
+    # macros (`enabled` of tracing's debug!/info!) are not program logic
+    return _SEED_ALL[0] and "|m:" not in s.get("sp", "")
 
 
 def _relevant(j):
     """locals whose variant / truth value is branched on (directly, through `?`, or after being moved on)"""
-    rel = set()
+    rel = {0}      # the return place: the variant handed back matters to the caller's rules
     blocks = j["blocks"]
     for blk in blocks:
         t = blk["t"]
@@ -688,7 +714,10 @@ def _step_block(j, blk, st, esc, rel=None):
             v = st[o["p"]["l"]][1]
             tm = {str(a): tb for a, tb in t["ts"]}
             nxt = tm.get(str(v), t["else"])
-            st = {}     # one resolution per set of facts: the copies end here
+            if _SEED_ALL[0]:
+                st = {}     # one resolution per set of facts: the copies end here
+            else:
+                st.pop(o["p"]["l"], None)
     elif t["k"] == "call":
         for a in t["args"]:
             if a.get("k") == "move" and not a["p"]["pr"]:
@@ -732,8 +761,6 @@ def thread_body(j):
     n = len(blocks)
     esc = _escaped(j)
     rel = _relevant(j)
-    if not rel:
-        return 0
     heads = _loop_headers(blocks)
     budget = 4 * n + 200
     index = {}          # (block, frozenset(state)) -> new index
@@ -759,7 +786,10 @@ def thread_body(j):
         st, forced, new_stmts = _step_block(j, blk, {l: v for (l, v, a) in fs}, esc, rel)
         # a fact that is not consumed within MAX_AGE blocks is dropped (bounds the duplication)
         fo = frozenset((l, v, ages.get(l, -1) + 1 if (l in ages and dict((l2, v2) for (l2, v2, a2) in fs).get(l) == v) else 0) for l, v in st.items())
-        fo = frozenset(x for x in fo if x[2] <= MAX_AGE)
+        if _SEED_ALL[0]:
+            fo = frozenset(x for x in fo if x[2] <= MAX_AGE)
+        else:
+            fo = frozenset((l, v, 0) for (l, v, a) in fo)
         succ = [forced] if forced is not None else _succs(blk["t"])
         out_info[node] = (fo, forced, new_stmts)
         for x in succ:
